@@ -103,6 +103,17 @@ CLAIMS = {
          "MultiSubscription/ZipSubscription and their _threads forms, and is_closed() sampled after every label on 12 timed operators, judged by "
          "the extracted predicates alg_ok / closed_sound_ok and compared with the model. PARTIAL: ref-count and finalizer subscriptions are "
          "decided under C11 / C15.", "DESIGN.md section 5 C17"),
+ "C16": ("Theorems: C16_source_agrees_single / _double and C16_no_constant_answers (the model's back channel equals a table regenerated on "
+         "every run from every `fn is_finished` body of /repo/src; no observer but the final subscriber answers a constant), "
+         "C16_every_observer_forwards, C16_cut_reaches_producer (an early end anywhere in any chain of single-input operators, or behind either "
+         "input of any two-input operator, makes the producer's observer report finished), C16_finished_stays_finished, "
+         "C16_iterator_stops_at_cut / C16_iterator_never_pulls_when_finished (from_iter pulls nothing after the item that ended the stream, for "
+         "iterators of any length), C16_stream_stops_when_finished (from_stream stops polling and its task ends), "
+         "C16_interval_retires_within_one_period (+ C16_task_finishes_when_function_declines from the scheduler model). Each run executes a "
+         "counting iterator, a scripted stream and an interval (hook scheduler, virtual clock) in main position and as either input of each "
+         "two-input operator, in front of chains made of 9 cutting operators x 30 intermediates (before / after) and random deeper chains, local "
+         "and _threads forms, and compares pulls / task liveness / trace with the model. flat_map / group_by / scheduler-moving operators between "
+         "producer and cutter are covered by the static table only.", "DESIGN.md section 5 C16"),
  "C15": ("Theorems: C15_exactly_once_right_after (for every sequence of items, completes, errors and unsubscriptions, each repeated at will, "
          "with finalize alone or with take(n) before or after it: the callback runs in the segment of the first trigger - first unsubscription, "
          "first terminal reaching the operator, or the item completing an upstream take - as the last thing there, and nowhere else), "
